@@ -141,3 +141,12 @@ CLAIMED["C09"] = (
  "Does not decide content/order preservation across memmoves nor the inductive invariant si <= ri <= wi.",
  COMMON_NOTE,
  "DESIGN.md section 5 C09")
+
+CLAIMED["C10"] = (
+ "transition-table agreement: canonical forms of every cursor store with its dominator-chain guards compared against the frozen bip-buffer table; min-clamp (phi) recognition",
+ "Narrow static necessary-condition analysis. Decides that Claim, Commit, Consume, Reset, Committed and Head of BipBuffer update/read the six cursors exactly as the bip-buffer algorithm prescribes "
+ "(free ranges of the layout, min-clamps on claim and commit, re-anchoring of an empty buffer, adjacency test, promotion exactly when the primary region empties, all six cursors zeroed by Reset). "
+ "A behaviour-preserving rewrite that changes the shape of a cursor update (not merely operand order or comparison direction, which are normalised) would need the table to be re-confirmed. "
+ "Does not decide FIFO order, Committed() over histories, contiguity after promotion or the representation invariant: these need an inductive relational argument outside this technique.",
+ COMMON_NOTE,
+ "DESIGN.md section 5 C10")
